@@ -61,7 +61,7 @@ def run_case(case: Dict[str, Any]) -> CaseResult:
 
 @st.composite
 def cases(draw: Any, tier: str) -> Dict[str, Any]:
-    c = draw(richgen.rich_case(depth=2, max_stmts=7, flag_w=1, sub_w=3, debug_w=1))
+    c = draw(richgen.rich_case(depth=2, max_stmts=7, flag_w=1, sub_w=3, debug_w=1, split_w=2))
     P = c["prog"]
     n_req = sum(1 for _n, d in P["params"] if d is None)
     second = []
